@@ -167,7 +167,9 @@ where
         sum += count as f64 * distance as f64;
     }
 
-    if count == 0 {
+    // No nodes, or only nodes at distance zero (the target's own node, as a lookup of our own id
+    // sees it when it is the only node listed): no estimate, rather than a division by zero.
+    if count == 0 || sum == 0.0 {
         return 0.0;
     }
 
